@@ -114,3 +114,229 @@ def run(fn, env, max_steps=10000):
         if len(nxt) != 1:
             raise AnalysisError("%s: %d successors at `%s`" % (fn.name, len(nxt), n.label[:60]))
         cur = nxt[0]
+
+
+# ---------------------------------------------------------------------------
+# richer machine: symbolic tokens, aggregates, address-of, call oracle, trace
+# ---------------------------------------------------------------------------
+
+class Addr(object):
+    """address of a local object (optionally of one element)"""
+
+    def __init__(self, var, index=None):
+        self.var, self.index = var, index
+
+    def __repr__(self):
+        return "&%s%s" % (self.var, "" if self.index is None else "[%r]" % (self.index,))
+
+
+class Machine(object):
+    """Concrete execution over the statement CFG with an oracle for external calls.
+
+    env keys are variable names or access paths ('obj->field'); values are ints, floats, strings (symbolic tokens such as
+    enum constants and opaque handles, compared only for equality), lists (aggregates) or Addr.  `oracle(name, args, node)`
+    gives the value of a call (return None for "no modelled value"); every call executed is appended to `trace` as
+    (name, evaluated args, node)."""
+
+    def __init__(self, fn, env, oracle=None, max_steps=20000):
+        self.fn = fn
+        self.env = dict(env)
+        self.oracle = oracle or (lambda name, args, node: None)
+        self.trace = []
+        self.max_steps = max_steps
+
+    def ev(self, e):
+        s = e.strip(casts=True)
+        k = s.kind
+        if k in ("IntegerLiteral", "CharacterLiteral"):
+            return int(s.value)
+        if k == "FloatingLiteral":
+            return float(s.value)
+        if k == "StringLiteral":
+            return s.strval()
+        if k == "ImplicitValueInitExpr":
+            return 0
+        if k == "InitListExpr":
+            return [self.ev(c) for c in s.children]
+        if k == "DeclRefExpr":
+            if s.refkind == "EnumConstantDecl":
+                return s.ref
+            if s.ref in self.env:
+                return self.env[s.ref]
+            raise Unknown(s.ref)
+        if k == "MemberExpr":
+            p = s.path()
+            if p in self.env:
+                return self.env[p]
+            raise Unknown(p or s.nsrc)
+        if k == "ArraySubscriptExpr":
+            base, idx = self.ev(s.children[0]), self.ev(s.children[1])
+            if isinstance(base, list) and isinstance(idx, int) and 0 <= idx < len(base):
+                return base[idx]
+            raise Unknown(s.nsrc)
+        if k == "ConditionalOperator":
+            return self.ev(s.children[1]) if self.truth(self.ev(s.children[0])) else self.ev(s.children[2])
+        if k == "CallExpr":
+            name = s.callee or ""
+            if name.startswith("__builtin_nan"):
+                return float("nan")
+            if name.startswith("__builtin_huge_val") or name.startswith("__builtin_inf"):
+                return float("inf")
+            args = []
+            for a in s.args:
+                try:
+                    args.append(self.ev(a))
+                except Unknown:
+                    args.append(None)
+            self.trace.append((name, args, s))
+            v = self.oracle(name, args, s)
+            if v is None:
+                raise Unknown("%s()" % name)
+            return v
+        if k == "UnaryOperator":
+            if s.opcode == "&":
+                t = s.children[0].strip(casts=True)
+                if t.kind == "ArraySubscriptExpr":
+                    return Addr(t.children[0].path(), self.ev(t.children[1]))
+                return Addr(t.path())
+            v = self.ev(s.children[0])
+            if s.opcode == "!":
+                return int(not self.truth(v))
+            if s.opcode == "-":
+                return -v
+            if s.opcode == "+":
+                return v
+            raise Unknown(s.nsrc)
+        if k == "BinaryOperator":
+            op = s.opcode
+            if op == "&&":
+                return int(self.truth(self.ev(s.children[0])) and self.truth(self.ev(s.children[1])))
+            if op == "||":
+                return int(self.truth(self.ev(s.children[0])) or self.truth(self.ev(s.children[1])))
+            if op == ",":
+                self.ev(s.children[0])
+                return self.ev(s.children[1])
+            a, b = self.ev(s.children[0]), self.ev(s.children[1])
+            if op == "==":
+                return int(a == b)
+            if op == "!=":
+                return int(a != b)
+            if isinstance(a, str) or isinstance(b, str):
+                raise Unknown("ordering/arithmetic on the symbolic value in `%s`" % s.nsrc)
+            if op == "<":
+                return int(a < b)
+            if op == ">":
+                return int(a > b)
+            if op == "<=":
+                return int(a <= b)
+            if op == ">=":
+                return int(a >= b)
+            if op == "+":
+                return a + b
+            if op == "-":
+                return a - b
+            if op == "*":
+                return a * b
+            if op == "/" and isinstance(a, int) and isinstance(b, int) and b != 0:
+                q = abs(a) // abs(b)
+                return q if (a >= 0) == (b >= 0) else -q
+            if op == "%" and isinstance(a, int) and isinstance(b, int) and b != 0:
+                return a - b * (abs(a) // abs(b) * (1 if (a >= 0) == (b >= 0) else -1))
+            raise Unknown(s.nsrc)
+        if k == "UnaryExprOrTypeTraitExpr":
+            raise Unknown("sizeof")
+        raise Unknown(s.nsrc)
+
+    @staticmethod
+    def truth(v):
+        if isinstance(v, str):
+            raise Unknown("truth value of symbolic `%s`" % v)
+        return bool(v)
+
+    def assign(self, lhs, val):
+        t = lhs.strip(casts=True)
+        if t.kind == "ArraySubscriptExpr":
+            base = t.children[0].path()
+            idx = self.ev(t.children[1])
+            arr = self.env.get(base)
+            if isinstance(arr, list) and isinstance(idx, int) and 0 <= idx < len(arr):
+                arr = list(arr)
+                arr[idx] = val
+                self.env[base] = arr
+                return
+            raise Unknown(t.nsrc)
+        p = t.path()
+        if p is None:
+            raise Unknown(t.nsrc)
+        self.env[p] = val
+
+    def run(self):
+        """returns the value of the return statement reached (None for `return;` / falling off the end)"""
+        g = _cfg.build_c(self.fn)
+        cur = g.entry.id
+        steps = 0
+        fn = self.fn
+        while True:
+            steps += 1
+            if steps > self.max_steps:
+                raise AnalysisError("%s: evaluation did not terminate" % fn.name)
+            n = g.nodes[cur]
+            succ = g.succ[cur]
+            if n is g.exit:
+                return None
+            try:
+                if n.kind == "return":
+                    return self.ev(n.ast.children[0]) if n.ast.children else None
+                if n.kind == "cond":
+                    lab = "T" if self.truth(self.ev(n.ast)) else "F"
+                    nxt = [b for b, l in succ if l == lab]
+                elif n.kind == "stmt" and n.label.startswith("switch("):
+                    sel = self.ev(n.ast)
+                    nxt = []
+                    for b, l in succ:
+                        if l and l.startswith("case "):
+                            txt = l[5:].strip().strip("()")
+                            try:
+                                cv = int(txt)
+                            except ValueError:
+                                cv = txt
+                            if cv == sel:
+                                nxt = [b]
+                    if not nxt:
+                        nxt = [b for b, l in succ if l in ("default", "nodefault")]
+                elif n.kind == "stmt":
+                    a = n.ast
+                    if a.kind == "BinaryOperator" and a.opcode == "=":
+                        self.assign(a.children[0], self.ev(a.children[1]))
+                    elif a.kind == "CompoundAssignOperator" and a.opcode in ("+=", "-="):
+                        old = self.ev(a.children[0])
+                        d = self.ev(a.children[1])
+                        self.assign(a.children[0], old + d if a.opcode == "+=" else old - d)
+                    elif a.kind == "UnaryOperator" and a.opcode in ("++", "--"):
+                        old = self.ev(a.children[0])
+                        self.assign(a.children[0], old + (1 if a.opcode == "++" else -1))
+                    elif a.kind == "DeclStmt":
+                        for d in a.children:
+                            if d.kind == "VarDecl" and d.children and d.children[-1].kind not in ("RecordDecl",):
+                                try:
+                                    self.env[d.name] = self.ev(d.children[-1])
+                                except Unknown:
+                                    self.env.pop(d.name, None)
+                    elif a.kind == "CallExpr":
+                        try:
+                            self.ev(a)
+                        except Unknown as e:
+                            if not str(e).endswith("()"):
+                                raise
+                    elif a.kind in ("NullStmt", "CompoundStmt", "BreakStmt", "ContinueStmt"):
+                        pass
+                    else:
+                        raise Unknown("statement kind %s" % a.kind)
+                    nxt = [b for b, l in succ]
+                else:
+                    nxt = [b for b, l in succ]
+            except Unknown as e:
+                raise AnalysisError("%s: cannot evaluate `%s` (%s unknown)" % (fn.name, n.label[:70], e))
+            if len(nxt) != 1:
+                raise AnalysisError("%s: %d successors at `%s`" % (fn.name, len(nxt), n.label[:60]))
+            cur = nxt[0]
